@@ -151,6 +151,9 @@ def Conc.finished (c : Conc α) : Bool := c.threads.all Thread.done
 def Complete (atomic : Bool) (norm : α → α) (chunks : List (List (FileInfo α))) (sched : List Nat) : Prop :=
   ((Conc.init chunks).run atomic norm sched).finished = true
 
+instance (atomic : Bool) (norm : α → α) (chunks : List (List (FileInfo α))) (sched : List Nat) :
+    Decidable (Complete atomic norm chunks sched) := by unfold Complete; infer_instance
+
 def buildConc (atomic : Bool) (norm : α → α) (chunks : List (List (FileInfo α))) (sched : List Nat) : Tree α :=
   ((Conc.init chunks).run atomic norm sched).tree
 
@@ -205,49 +208,71 @@ def subtypes (norm : α → α) (fs : List (FileInfo α)) (t : Tree α) (c : α)
   | none => []
   | some n => (t.children n).filterMap (t.item norm fs)
 
+/-- outcome of a member-hierarchy request -/
+inductive Answer (α : Type) where
+  | diverges                 -- the walk does not terminate (the model ran out of fuel)
+  | fails                    -- the request returns an error
+  | names (l : List α)       -- the declaring classes of the answered items
+deriving Repr, DecidableEq
+
 /-- `generate_method_supertypes_for_entity`: nearest declaration of `m` at node `n` or above.
-    `fuel` bounds the recursion of the model (the code has none). -/
-def memberUpFrom (norm : α → α) (fs : List (FileInfo α)) (t : Tree α) (m : α) : Nat → Nat → Option α
+    The code recurses without a bound; the model takes `fuel` and answers `none` when it
+    runs out (`some none` = no declaration found). -/
+def memberUpFrom (norm : α → α) (fs : List (FileInfo α)) (t : Tree α) (m : α) : Nat → Nat → Option (Option α)
   | 0, _ => none
   | k + 1, n =>
     match t.ids[n]? with
-    | none => none
+    | none => some none
     | some nm =>
       match classFile norm fs nm with
-      | none => none
+      | none => some none
       | some f =>
-        if declares norm f m then some f.cls
+        if declares norm f m then some (some f.cls)
         else match t.parent n with
-          | none => none
-          | some p => if t.live norm p then memberUpFrom norm fs t m k p else none
+          | none => some none
+          | some p => if t.live norm p then memberUpFrom norm fs t m k p else some none
 
 /-- `type_hierarchy_supertypes` of a method / field item of class `c` (answers = declaring classes) -/
-def memberSupertypes (norm : α → α) (fs : List (FileInfo α)) (t : Tree α) (c m : α) : Option (List α) :=
+def memberSupertypes (norm : α → α) (fs : List (FileInfo α)) (t : Tree α) (fuel : Nat) (c m : α) : Answer α :=
   match t.map (norm c) with
-  | none => some []
+  | none => .names []
   | some n =>
     match t.parent n with
-    | none => some []
-    | some p => if t.live norm p then some (memberUpFrom norm fs t m (t.ids.length + 1) p).toList else none
+    | none => .names []
+    | some p =>
+      if t.live norm p then
+        match memberUpFrom norm fs t m fuel p with
+        | none => .diverges
+        | some r => .names r.toList
+      else .fails
+
+/-- all walks below must terminate; their answers are concatenated in child order -/
+def optFlat {β : Type} : List (Option (List β)) → Option (List β)
+  | [] => some []
+  | none :: _ => none
+  | some a :: rest => (optFlat rest).map (a ++ ·)
 
 /-- `generate_class_member_subtypes_for_entity`: nearest declarations of `m` at node `n` or below -/
-def memberDownFrom (norm : α → α) (fs : List (FileInfo α)) (t : Tree α) (m : α) : Nat → Nat → List α
-  | 0, _ => []
+def memberDownFrom (norm : α → α) (fs : List (FileInfo α)) (t : Tree α) (m : α) : Nat → Nat → Option (List α)
+  | 0, _ => none
   | k + 1, n =>
     match t.ids[n]? with
-    | none => []
+    | none => some []
     | some nm =>
       match classFile norm fs nm with
-      | none => []
+      | none => some []
       | some f =>
-        if declares norm f m then [f.cls]
-        else (t.children n).flatMap (memberDownFrom norm fs t m k)
+        if declares norm f m then some [f.cls]
+        else optFlat ((t.children n).map (memberDownFrom norm fs t m k))
 
 /-- `type_hierarchy_subtypes` of a method / field item of class `c` -/
-def memberSubtypes (norm : α → α) (fs : List (FileInfo α)) (t : Tree α) (c m : α) : List α :=
+def memberSubtypes (norm : α → α) (fs : List (FileInfo α)) (t : Tree α) (fuel : Nat) (c m : α) : Answer α :=
   match t.map (norm c) with
-  | none => []
-  | some n => (t.children n).flatMap (memberDownFrom norm fs t m (t.ids.length + 1))
+  | none => .names []
+  | some n =>
+    match optFlat ((t.children n).map (memberDownFrom norm fs t m fuel)) with
+    | none => .diverges
+    | some l => .names l
 
 end
 
